@@ -330,6 +330,12 @@ fn do_replay(prop: &props::Prop, tier: Tier, file: &str) -> i32 {
     let mut ctx = Ctx::new(prop.id, tier, 0, 1);
     ctx.replaying = true;
     ctx.findings = report::Findings::default(); // a replay shows the behaviour, listed or not
+    if let Some(ep) = case.get("epoch").and_then(|e| e.as_array()) {
+        if let (Some(s), Some(ns)) = (ep.first().and_then(|x| x.as_i64()), ep.get(1).and_then(|x| x.as_i64())) {
+            shim::set_epoch(s, ns);
+            run::say(&format!("epoch {s}.{ns:09}"));
+        }
+    }
     (prop.replay)(&mut ctx, &case);
     run::cleanup_scratch();
     if !ctx.out.machinery_errors.is_empty() {
